@@ -95,6 +95,10 @@ def jobs(pid, tier):
         J.append(Job('k10_addvar', dict(N=4 if q else 5, L=3), need_outcomes=['added', 'idempotent', 'refused']))
         J.append(Job('k9_undeclare', dict(N=4, L=3), need_outcomes=['removed', 'nothing_removed', 'refused']))
         J.append(Job('k9_undeclare', dict(N=3 if q else 5, L=4 if q else 3), need_outcomes=['removed', 'refused']))
+    if pid == 'C16':
+        J.append(Job('dddmp', dict(M=2, nroots=1), need_outcomes=['loaded']))
+        J.append(Job('dddmp', dict(M=3 if q else 4, nroots=2, headers=['v0gap', 'v3'] if q else ['v0', 'v0gap', 'v1', 'v3']),
+                     need_outcomes=['loaded']))
     return J
 
 
